@@ -145,7 +145,12 @@ def hessian_log_determinant(function, x, *args, jit=True):
     hess_shape = (d, d)
 
     def get_log_det(x, *args):
-        hess = jax.jacfwd(jax.jacrev(function))(x[None, :], *args).reshape(hess_shape)
+        hess = jax.jacfwd(jax.jacrev(function))(x[None, :], *args)
+        if hess.size == d * d:
+            hess = hess.reshape(hess_shape)
+        else:
+            # vector-valued function: one Hessian per output, as in `hessian`
+            hess = hess.reshape((-1,) + hess_shape)
         sign, log_det = jax.numpy.linalg.slogdet(hess)
         return sign, log_det
 
